@@ -8,18 +8,22 @@ import (
 	"github.com/ohler55/slip"
 )
 
-func syncFloatPrec(v0, v1 *slip.LongFloat) {
+func syncFloatPrec(v0, v1 *slip.LongFloat) (*slip.LongFloat, *slip.LongFloat) {
 	p0 := (*big.Float)(v0).Prec()
 	p1 := (*big.Float)(v1).Prec()
 	// The big.Float adds random digits when increasing precision so
-	// increase the hard way by converting to a string and re-parsing.
+	// increase the hard way by converting to a string and re-parsing into a
+	// new value. The arguments are operands and must not be changed.
 	if p0 < p1 {
 		s := (*big.Float)(v0).Text('e', -1)
-		(*big.Float)(v0).SetPrec(p1)
-		_, _, _ = (*big.Float)(v0).Parse(s, 10)
+		z := new(big.Float).SetPrec(p1)
+		_, _, _ = z.Parse(s, 10)
+		v0 = (*slip.LongFloat)(z)
 	} else if p1 < p0 {
 		s := (*big.Float)(v1).Text('e', -1)
-		(*big.Float)(v1).SetPrec(p0)
-		_, _, _ = (*big.Float)(v1).Parse(s, 10)
+		z := new(big.Float).SetPrec(p0)
+		_, _, _ = z.Parse(s, 10)
+		v1 = (*slip.LongFloat)(z)
 	}
+	return v0, v1
 }
